@@ -137,6 +137,8 @@ struct World {
     sent: Vec<Sent>,
     known: Vec<BTreeSet<usize>>,
     delivered_ok: Vec<BTreeSet<usize>>,
+    /// deliveries the member rejected: not offered again (their dependants stay undeliverable)
+    rejected: BTreeSet<(usize, usize)>,
     erng: p2panda_encryption::Rng,
     plain_no: u64,
 }
@@ -164,7 +166,7 @@ impl World {
     fn new(seed: u8) -> World {
         let erng = p2panda_encryption::Rng::from_seed([seed; 32]);
         let members = init_group_state(NMEM, &erng).into_iter().map(Some).collect();
-        World { members, sent: vec![], known: vec![BTreeSet::new(); NMEM], delivered_ok: vec![BTreeSet::new(); NMEM], erng, plain_no: 0 }
+        World { members, sent: vec![], known: vec![BTreeSet::new(); NMEM], delivered_ok: vec![BTreeSet::new(); NMEM], rejected: BTreeSet::new(), erng, plain_no: 0 }
     }
 
     fn welcomed(&self, m: usize) -> bool {
@@ -178,7 +180,7 @@ impl World {
     }
     /// may message k be delivered to j now without violating causality?
     fn deliverable(&self, k: usize, j: usize) -> bool {
-        self.sent[k].sender != j && !self.known[j].contains(&k) && self.sent[k].deps.iter().all(|d| self.known[j].contains(d) || self.sent[*d].sender == j)
+        self.sent[k].sender != j && !self.known[j].contains(&k) && !self.rejected.contains(&(k, j)) && self.sent[k].deps.iter().all(|d| self.known[j].contains(d) || self.sent[*d].sender == j)
     }
     fn bundle_ids(&self, m: usize) -> BTreeSet<GroupSecretId> {
         self.members[m].as_ref().unwrap().secrets.ids().cloned().collect()
@@ -247,6 +249,8 @@ impl World {
                 // an undecryptable application message is never a dependency of later messages
                 if s.kind == Kind::App {
                     self.known[j].insert(k);
+                } else {
+                    self.rejected.insert((k, j));
                 }
                 (err_word(&e), vec![])
             }
@@ -347,6 +351,11 @@ fn run_case(seed: u8, steps: &[Step]) -> Option<Ran> {
                     }
                     if a == "PANIC" {
                         fails.push(("panic".into(), format!("step {n}: receive panicked")));
+                    }
+                    // every delivery of the schedule respects causality: a CONTROL message that is
+                    // rejected there is a failure of its own (the member never learns what it carries)
+                    if snt.kind != Kind::App && a.starts_with("E:") {
+                        fails.push(("legit-message-rejected".into(), format!("step {n}: member {j} rejected control message {k} of member {} delivered in causal order: {a}", snt.sender)));
                     }
                 }
                 answers.push(a);
@@ -618,6 +627,15 @@ fn main() {
     // fixed cases: sequential add/update, the known finding's witness (create{0,1}; 0 adds 2 || 1 updates),
     // removal + update + application message, re-add after removal
     for l in [
+        // first-contact rotations that cross: two members that never exchanged a direct (2SM) message —
+        // the non-creators right after create, or members added by somebody else — rotate concurrently;
+        // both delivery orders; then everybody sends
+        "c0:0,1,2 d0:1 d0:2 u1 u2 d1:2 d2:1 d1:0 d2:0 s0 s1 s2 d3:1 d3:2 d4:0 d4:2 d5:0 d5:1",
+        "c0:0,1,2 d0:1 d0:2 u1 u2 d2:1 d1:2 d2:0 d1:0 s0 s1 s2 d3:1 d3:2 d4:0 d4:2 d5:0 d5:1",
+        "c0:0,1,2 d0:1 d0:2 u1 r2:0 d1:2 d2:1 d1:0 d2:0 s1 s2 d3:2 d4:1",
+        "c0:0,1,2 d0:1 d0:2 r1:0 u2 d2:1 d1:2 d1:0 d2:0 s1 s2 d3:2 d4:1",
+        "c0:0,1 d0:1 d0:2 d0:3 a0:2 d1:1 d1:2 d1:3 a0:3 d2:1 d2:2 d2:3 u2 u3 d3:3 d4:2 d3:0 d3:1 d4:0 d4:1 s0 s2 s3 d5:1 d5:2 d5:3 d6:0 d6:1 d6:3 d7:0 d7:1 d7:2",
+        "c0:0,1 d0:1 d0:2 d0:3 a0:2 d1:1 d1:2 d1:3 a0:3 d2:1 d2:2 d2:3 u3 u2 d3:2 d4:3 d3:0 d3:1 d4:0 d4:1 s1 s2 s3 d5:0 d5:2 d5:3 d6:0 d6:1 d6:3 d7:0 d7:1 d7:2",
         "c0:0,1 d0:1 d0:2 a0:2 d1:1 d1:2 u1 d2:0 d2:2 s1 d3:0 d3:2 s2 d4:0 d4:1",
         "c0:0,1 d0:1 d0:2 a0:2 u1 d1:1 d1:2 d2:0 d2:2 s1 d3:0 d3:2 s2 d4:0 d4:1",
         "c0:0,1,2 d0:1 d0:2 r0:2 d1:1 d1:2 u1 d2:0 d2:2 s1 d3:0 d3:2 s0 d4:1 d4:2",
